@@ -43,7 +43,7 @@ func genRecover(c *Config, r *rand.Rand) {
 	}
 	plan := []Action{{Client: "main", Op: "setup"}, {Client: "main", Op: "start"}}
 	total := totalRecords(c)
-	sc := pick(r, "transient", "transient", "transient", "fatal-dlq-threshold", "fatal-dlq-write", "fatal-proc-error", "fatal-nonconverge", "user-stop", "stop-during-backoff", "stopall", "stopall-during-backoff")
+	sc := pick(r, "transient", "transient", "transient", "fatal-dlq-threshold", "fatal-dlq-write", "fatal-proc-error", "fatal-nonconverge", "user-stop", "stop-during-backoff", "stopall", "stopall-during-backoff", "stop-during-restart", "force-during-restart")
 	if sc == "fatal-nonconverge" && c.Engine != "v2" {
 		sc = "transient"
 	}
@@ -88,6 +88,18 @@ func genRecover(c *Config, r *rand.Rand) {
 		c.Recovery.MaxDelayMs = c.Recovery.MinDelayMs * 2
 		c.Recovery.MaxRetries = int64(pick(r, 1, 3, -1))
 		plan = append(plan, Action{Client: "user", Op: pick(r, "stop", "stopwait"), When: "status", N: 5})
+	case "stop-during-restart", "force-during-restart":
+		// the request lands while the automatic restart is building/opening the new run
+		c.MaxFaults = 1
+		c.Faults[pick(r, "dst.write.err", "src.recv.err", "dst.ack.err")] = 1000
+		c.Recovery.MinDelayMs = pick(r, 10, 100)
+		c.Recovery.MaxDelayMs = c.Recovery.MinDelayMs * 2
+		c.Recovery.MaxRetries = int64(pick(r, 1, 3, -1))
+		op := pick(r, "stop", "stopwait")
+		if sc == "force-during-restart" {
+			op = "forcestop"
+		}
+		plan = append(plan, Action{Client: "user", Op: op, When: "restarting"})
 	case "stopall":
 		c.MaxFaults = pick(r, 0, 1)
 		c.Faults["dst.write.err"] = 100
@@ -177,7 +189,12 @@ func genControl(c *Config, r *rand.Rand) {
 		Action{Client: "main", Op: "settle-control", When: "ctl-done"},
 		Action{Client: "main", Op: "end"})
 	c.Plan = plan
-	_ = fmt.Sprint
+	// some histories also meet failing status writes (only the pipeline document is hit):
+	// a start whose "running" status cannot be stored, a cleanup that cannot record its result
+	if c.MaxFaults > 0 && r.IntN(4) == 0 {
+		c.Faults["db.err"] = pick(r, 100, 300, 600)
+		c.FaultOnlyKeys = "pipeline:instance:"
+	}
 }
 
 // genReconf: live processor reconfiguration on a running pipeline (C13, default engine only).
